@@ -42,10 +42,53 @@ func newAdapterClient(proto string) (entryPoint, error) {
 // FTransport is opened again, well-behaved peer on session 2" - on the
 // reopened transport: the damage must stay confined to the one connection.
 func (a *adapterClient) mode(idx int) string {
-	if idx%2 == 0 {
+	switch idx % 4 {
+	case 0:
+		// three hostile sessions on one transport whose monitor has finished
+		// (its policy is "do not reopen"), then the well-behaved one
+		return "stream+3-hostile-sessions-same-transport"
+	case 2:
 		return "stream+reopen-same-transport"
 	}
 	return "stream"
+}
+
+// answersClosed: after a close the transport must answer IsOpen() (with
+// false) - the call is made from a goroutine so that a wedged transport is
+// found by the dump instead of wedging the monitor.
+func (a *adapterClient) answersClosed(tr frugal.FTransport, when string) outcome {
+	res := make(chan bool, 1)
+	go func() { res <- tr.IsOpen() }()
+	open, o := await(res, nil, "")
+	if o.kind != "ok" {
+		if o.kind == "stall" {
+			o.note = "IsOpen() " + when + " never answered: " + o.note
+		}
+		return o
+	}
+	if open {
+		return outcome{"wrong", "[still-open] IsOpen() answers true " + when}
+	}
+	return okOutcome("")
+}
+
+// hostileSession opens the transport again and lets the peer send data and
+// hang up: the transport must close, say so on Closed() and answer IsOpen().
+func (a *adapterClient) hostileSession(s *session, n int, data []byte) outcome {
+	what := fmt.Sprintf("session %d of the same transport", n)
+	if err := s.tr.Open(); err != nil {
+		return outcome{"wrong", fmt.Sprintf("[reopen-open] opening %s: %v", what, err)}
+	}
+	closed := s.tr.Closed()
+	s.st.Feed(data)
+	s.st.FeedEOF()
+	if _, o := await(closed, nil, adapterReadLoop); o.kind != "ok" {
+		if o.kind == "stall" {
+			o.note = "the transport never reported the end of " + what + " on Closed(): " + o.note
+		}
+		return o
+	}
+	return a.answersClosed(s.tr, "after the peer's bytes closed "+what)
 }
 
 // session is one adapter transport on a scripted byte stream.
@@ -312,6 +355,17 @@ func (a *adapterClient) deliver(idx int, in input) outcome {
 		}
 		same = r.ok
 	}
+	if o := a.answersClosed(s1.tr, "after the peer's bytes closed the transport"); o.kind != "ok" {
+		return o
+	}
+	if a.mode(idx) == "stream+3-hostile-sessions-same-transport" {
+		for n := 2; n <= 3; n++ {
+			if o := a.hostileSession(s1, n, in.Data); o.kind != "ok" {
+				return o
+			}
+		}
+		how = "/3-hostile-sessions" + how
+	}
 	if a.mode(idx) == "stream" {
 		if same {
 			return okOutcome("same-connection" + how)
@@ -332,7 +386,7 @@ func (a *adapterClient) deliver(idx int, in input) outcome {
 	if err := s1.tr.Open(); err != nil {
 		return outcome{"wrong", "[reopen-open] reopening the transport after its read loop closed it: " + err.Error()}
 	}
-	if o := a.served(s1, opid+500000, "the reopened transport (session 2, new connection)"); o.kind != "ok" {
+	if o := a.served(s1, opid+500000, "the reopened transport (well-behaved peer, new connection)"); o.kind != "ok" {
 		return o
 	}
 	s1.tr.Close()
